@@ -257,6 +257,23 @@ func c16Triples(c *Ctx, n int) []c16Triple {
 			ts = append(ts, c16Triple{qc[0], schema, qc[1], "dotted-step-ids", nil})
 		}
 	}
+	// the same query text validated in several contexts - a schema in which a path argument of a call fails (its filter is applied to an
+	// object), a current step for which a field read inside the argument is blocked, and the good context again: what the cached
+	// operation keeps from one validation must not show in the next, and trees returned earlier stay what they were
+	{
+		good := "input: {\n\tstatus: string\n\t_dependencies: []\n}\nsettings: {\n\tcodes: [...{code: string, active: bool}]\n\tlimit: number\n\t_dependencies: []\n}\nother: {\n\tflag: bool\n\t_dependencies: [\"settings\"]\n}\nlone: {\n\tv: string\n\t_dependencies: []\n}\n"
+		bad := strings.Replace(good, "codes: [...{code: string, active: bool}]", "codes: {code: string, active: bool}", 1)
+		qs := []string{`$.input.status.AnyOf($.settings.codes[@.active].First().code,"open","held")`, `$.input.status.AnyOf($.settings.codes[@.active.Equal($.other.flag)].First().code,"open","held")`,
+			`$.input.status.Sprintf($.settings.codes[@.active].Count(),"a",1,true)`, `{OR,$.input.status.AnyOf($.settings.codes[@.active].Last().code,"x"),$.input.status.Equal("y")}`,
+			`$.settings.limit.Sum($.settings.codes[@.active].Count(),1,2)`, `$.input.status.AnyOf("first",$.settings.codes[@.active].First().code,"last")`}
+		for rep := 0; rep < 2; rep++ {
+			for _, q := range qs {
+				for _, cx := range [][2]string{{good, ""}, {bad, ""}, {good, "lone"}, {good, "other"}, {good, ""}, {bad, "lone"}} {
+					ts = append(ts, c16Triple{q, cx[0], cx[1], "same-query-across-contexts", nil})
+				}
+			}
+		}
+	}
 	// First / Last / Index on a TOP-LEVEL list of structs next to queries that address a struct-typed field: both reach the
 	// "functions offered for (Object, Single)" computation, one with and one without the element's schema expression
 	for i := 0; i < 6 && len(ts) > 12; i++ {
